@@ -132,6 +132,17 @@ D.mk=function(kind,arg){
   }
 };
 D.buffer=function(t){ return t.buffer };
+// GM: logging getter that first runs the armed mutator (a host function; no-op when nothing is armed)
+D.mkMutGetter=function(name,ret,hook){ return reg(function(){ 'use strict'; logs+=name+"("+render(this)+")|"; hook(); return ret },name) };
+function rentries(t){ var ks=R_keys(t), s="["; for (var i=0;i<ks.length;i++){ if(i) s+=","; s+=rkey(ks[i])+"="+render(R_gopd(t,ks[i]).value) } return s+"]" }
+var O_assign=O.assign, slot=null;
+D.enum_forin=wrap(function(o,step,brk,body){ var s="[",n=0,br="-"; for (var k in o){ if(n) s+=","; s+=rkey(k); if (n===step){ br=body(); if (brk) break } n++ } return s+"]|"+br });
+D["enum_forin-strict"]=wrap(function(o,step,brk,body){ 'use strict'; var s="[",n=0,br="-"; for (var k in o){ if(n) s+=","; s+=rkey(k); if (n===step){ br=body(); if (brk) break } n++ } return s+"]|"+br });
+D.enum_assign=wrap(function(o){ return rentries(O_assign(O_create(null),o)) });
+D.enum_spread=wrap(function(o){ return rentries({__proto__:null, ...o}) });
+D.enum_entries=wrap(function(o){ var a=O_entries(o), s="["; for (var i=0;i<a.length;i++){ if(i) s+=","; s+=rkey(a[i][0])+"="+render(a[i][1]) } return s+"]" });
+D.enumOpen=wrap(function(o){ slot=(function*(){ for (var k in o) yield rkey(k) })(); return "ok" });
+D.enumNext=wrap(function(){ if (slot===null) return "none"; var r=slot.next(); return r.done ? "done" : r.value });
 D.protoAccessors=function(){ var d=O_gopd(O.prototype,"__proto__"); reg(d.get,"protoGet"); reg(d.set,"protoSet") };
 
 D.get_js=wrap(function(o,k){ return render(o[k]) });
